@@ -21,7 +21,7 @@ def families(tier, which="ab"):
             ("b", "{7}", "{4,8}", "{1,2}", "{3,4}", 2, "Pa3"),
             ("d", "{7}", "{4}", "{1,2}", "{3}", 2, "Pa3"),          # small family for the right-hand-side discretisation (C01)
             ("c", "{5,7}", "{12}", "{1,2}", "{2,3}", 2, "Pa3"),     # ntheta divisible by 3: the third remainder class of the 3-pass assemblies
-            ("e", "{5}", "{8}", "{1,2}", "{2}", 2, "Pa3"),          # ntheta mod 3 = 2: the two-line remainder rule of the 3-pass assemblies
+            ("e", "{5}", "{8}", "{1,2}", "{0,2}", 2, "Pa3"),        # ntheta mod 3 = 2 (and no circle section): the two-line remainder rule of the 3-pass assemblies
             ("f", "{9}", "{4}", "{1}", "{5,6}", 2, "Pa3")]          # 5 and 6 smoother circles: the remaining residues of the stride-4 circle phases
     return [f for f in fams if f[0] in which]
 
